@@ -408,3 +408,112 @@ Proof.
   induction bs as [|b bs IH]; intro j0; cbn [slots_for map concat]; [reflexivity|].
   rewrite (IH (S j0)). destruct (Nat.eqb (b_cache b) ci); reflexivity.
 Qed.
+
+(* ---- the follow-up question: SRV and TXT for every touched instance that has a PTR of the type but no SRV ---- *)
+(* whether updateService asks for the instance: its type is the browser's (or the browser enumerates), a PTR named the
+   type is held, no SRV of the instance is held *)
+Definition needs_srv (b : browser) (v : view) (fq : bstr) : bool :=
+  let '(sname, stype) := split_fq fq in
+  negb ((match bs_data stype with [] => true | _ :: _ => false end)
+        || (negb (bs_eqb (b_type b) (Some browse_type)) && negb (bs_eqb stype (b_type b)))) &&
+  match lookup_view stype T_PTR v with [] => false | _ :: _ =>
+    match lookup_view fq T_SRV v with [] => true | _ :: _ => false end end.
+
+Lemma update_service_need j v fq b : fst (fst (update_service j v fq b)) = needs_srv b v fq.
+Proof.
+  unfold update_service, needs_srv. destruct (split_fq fq) as [sname stype].
+  destruct (_ || _); [reflexivity|]. cbn [negb andb]. destruct (lookup_view stype T_PTR v); [reflexivity|].
+  destruct (lookup_view fq T_SRV v); reflexivity.
+Qed.
+
+Lemma update_service_type j v fq b : b_type (snd (fst (update_service j v fq b))) = b_type b /\ b_cache (snd (fst (update_service j v fq b))) = b_cache b.
+Proof. pose proof (update_service_step j v fq b) as U. destruct (update_service j v fq b) as [[n b'] es]. cbn. tauto. Qed.
+
+(* the names collected for the follow-up: exactly the touched names that need an SRV, given that the browser's cache
+   does not change while the names are re-evaluated *)
+Lemma browser_update_names_queries (j : nat) (nulls : bool) : forall nms w queries b,
+  nth_error (w_browsers w) j = Some b ->
+  let v := match nth_error (w_caches w) (b_cache b) with Some c => view_of c | None => [] end in
+  let name_of := fun (n : list N) => match n return bstr with [] => if nulls then None else Some [] | _ :: _ => Some n end in
+  snd (fst (browser_update_names j nms nulls w queries)) =
+  fold_left (fun qs n => if needs_srv b v (name_of n) then set_insert n qs else qs) nms queries.
+Proof.
+  induction nms as [|n nms IH]; intros w queries b Nb; cbv zeta beta; cbn [browser_update_names fold_left]; [reflexivity|].
+  cbv zeta beta in IH. rewrite Nb.
+  match goal with |- context [update_service j ?v ?fq b] =>
+    pose proof (update_service_need j v fq b) as Un; pose proof (update_service_type j v fq b) as [Ut Uc];
+    destruct (update_service j v fq b) as [[need b'] es] end.
+  cbn [fst snd] in *. subst need.
+  match goal with |- context [browser_update_names j nms nulls ?w1 ?q1] =>
+    specialize (IH w1 q1 b' ltac:(cbn [w_browsers]; eapply nth_error_replace_same; exact Nb));
+    destruct (browser_update_names j nms nulls w1 q1) as [[w'' qs] es'] end.
+  cbn [fst snd w_caches] in *. rewrite IH, Uc.
+  assert (E : forall vv fq0, needs_srv b' vv fq0 = needs_srv b vv fq0) by (intros; unfold needs_srv; rewrite Ut; reflexivity).
+  match goal with |- fold_left ?f1 nms _ = fold_left ?f2 nms _ =>
+    assert (G : forall q, fold_left f1 nms q = fold_left f2 nms q) end.
+  { clear IH. induction nms as [|n1 nms IH2]; intro q0; cbn [fold_left]; [reflexivity|]. rewrite E. apply IH2. }
+  apply G.
+Qed.
+
+(* the follow-up message itself: an SRV and a TXT question for each collected name, in order *)
+Lemma followup_queries (nulls : bool) : forall qnames m0,
+  let name_of := fun (n : list N) => match n return bstr with [] => if nulls then None else Some [] | _ :: _ => Some n end in
+  let msg := fold_left (fun msg n => add_query (mkQuery (name_of n) T_TXT false) (add_query (mkQuery (name_of n) T_SRV false) msg)) qnames m0 in
+  m_queries msg = m_queries m0 ++ flat_map (fun n => [mkQuery (name_of n) T_SRV false; mkQuery (name_of n) T_TXT false]) qnames /\
+  m_response msg = m_response m0 /\ m_records msg = m_records m0.
+Proof.
+  induction qnames as [|n qn IH]; intro m0; cbv zeta beta; cbn [fold_left flat_map]; [rewrite app_nil_r; auto|].
+  cbv zeta beta in IH. match goal with |- context [fold_left _ qn ?m1] => destruct (IH m1) as (A & B & C) end.
+  rewrite A, B, C. cbn [add_query m_queries m_response m_records]. rewrite <- !app_assoc. auto.
+Qed.
+
+(* enumerate-all: the batch timer asks a PTR question for every service type learnt since the last batch, listing the PTR
+   records already held for it, and forgets the batch *)
+Lemma service_timeout_spec j w b t ts :
+  nth_error (w_browsers w) j = Some b -> b_ptr_targets b = t :: ts ->
+  exists msg, snd (browser_service_timeout j w) = [ESendAll msg] /\ m_response msg = false /\
+    map q_name (m_queries msg) = map (fun x => Some x) (t :: ts) /\ Forall (fun q => q_type q = T_PTR) (m_queries msg) /\
+    b_ptr_targets (nth j (w_browsers (fst (browser_service_timeout j w))) b) = [].
+Proof.
+  intros Nb Ts. unfold browser_service_timeout. rewrite Nb, Ts. cbn [fst snd w_browsers].
+  set (v := match nth_error (w_caches w) (b_cache b) with Some c => view_of c | None => [] end).
+  eexists. split; [reflexivity|].
+  assert (G : forall l m0, let msg := fold_left (fun m t0 => fold_left (fun m' r => add_record r m') (lookup_view (Some t0) T_PTR v)
+                                     (add_query (mkQuery (Some t0) T_PTR false) m)) l m0 in
+            m_response msg = m_response m0 /\ map q_name (m_queries msg) = map q_name (m_queries m0) ++ map (fun x => Some x) l /\
+            (Forall (fun q => q_type q = T_PTR) (m_queries m0) -> Forall (fun q => q_type q = T_PTR) (m_queries msg))).
+  { induction l as [|x l IH]; intro m0; cbv zeta; cbn [fold_left map]; [rewrite app_nil_r; auto|].
+    assert (FR : forall rs m1, m_queries (fold_left (fun m' r => add_record r m') rs m1) = m_queries m1 /\
+                               m_response (fold_left (fun m' r => add_record r m') rs m1) = m_response m1).
+    { induction rs as [|r rs IHr]; intro m1; cbn [fold_left]; [auto|]. destruct (IHr (add_record r m1)) as [A B]. rewrite A, B. auto. }
+    match goal with |- context [fold_left _ l ?m1] => destruct (IH m1) as (A & B & C) end. cbv zeta in A, B, C.
+    destruct (FR (lookup_view (Some x) T_PTR v) (add_query (mkQuery (Some x) T_PTR false) m0)) as [Q1 Q2].
+    rewrite A, B, Q1, Q2. cbn [add_query m_queries m_response]. rewrite map_app, <- app_assoc. cbn [map q_name app].
+    split; [reflexivity|]. split; [reflexivity|]. intro F. apply C. rewrite Q1. cbn [add_query m_queries]. apply Forall_app. split; [exact F|]. constructor; [reflexivity|constructor]. }
+  destruct (G (t :: ts) default_message) as (A & B & C). cbv zeta in A, B, C. split; [exact A|]. split; [exact B|]. split; [apply C; constructor|].
+  rewrite (nth_error_nth _ _ _ (nth_error_replace_same _ _ _ _ Nb)). reflexivity.
+Qed.
+
+(* onMessageReceived, the follow-up as a whole: after the records have been cached, the names touched by the response
+   that have a PTR of the type but no SRV are asked for, SRV and TXT each, in one multicast question *)
+Theorem browser_on_message_followup now j m w :
+  m_response m = true ->
+  let '(w1, nms, nulls, e1) := browser_cache_records now j (m_records m) [] false w in
+  forall b1, nth_error (w_browsers w1) j = Some b1 ->
+  let v1 := match nth_error (w_caches w1) (b_cache b1) with Some c => view_of c | None => [] end in
+  let name_of := fun (n : list N) => match n return bstr with [] => if nulls then None else Some [] | _ :: _ => Some n end in
+  let qn := fold_left (fun qs n => if needs_srv b1 v1 (name_of n) then set_insert n qs else qs) nms [] in
+  exists e2 e3, snd (browser_on_message now j m w) =
+    e1 ++ e2 ++ e3 ++ match qn with
+                      | [] => []
+                      | _ :: _ => [ESendAll (fold_left (fun msg n => add_query (mkQuery (name_of n) T_TXT false)
+                                                   (add_query (mkQuery (name_of n) T_SRV false) msg)) qn default_message)]
+                      end.
+Proof.
+  intro R. unfold browser_on_message. rewrite R. cbn [negb].
+  destruct (browser_cache_records now j (m_records m) [] false w) as [[[w1 nms] nulls] e1].
+  intros b1 Nb. cbv zeta.
+  pose proof (browser_update_names_queries j nulls nms w1 [] b1 Nb) as Q. cbv zeta beta in Q.
+  destruct (browser_update_names j nms nulls w1 []) as [[w2 qnames] e2]. cbn [fst snd] in Q. subst qnames.
+  destruct (browser_cache_addresses now j (m_records m) w2) as [w3 e3]. cbn [snd]. exists e2, e3. reflexivity.
+Qed.
